@@ -695,6 +695,7 @@ func genPrioScenario(rng *rand.Rand, g prioGen) PrioScenario {
 			at[rng.IntN(len(sc.Script)+1)] = true
 		}
 		removed := []uint{}
+		nilUsed, nilPrio := false, uint(0)
 		emit := func() {
 			if rng.IntN(7) == 0 {
 				// AddInput with the channel that is registered already: must change nothing
@@ -730,6 +731,15 @@ func genPrioScenario(rng *rand.Rand, g prioGen) PrioScenario {
 				sort.Slice(ps, func(i, j int) bool { return ps[i] < ps[j] })
 				p := ps[rng.IntN(len(ps))]
 				n := 1 + rng.IntN(H+2)
+				if !nilUsed && len(ps) >= 2 && rng.IntN(6) == 0 {
+					// replace the channel by a NIL channel while its writer still has items to
+					// deliver: from the return of AddInput the old channel is not read any more;
+					// the nil input is removed again before the end (it can never be closed)
+					nilUsed = true
+					nilPrio = p
+					out = append(out, POp{K: "W", P: p, N: n + 4}, POp{K: "repl", P: p, Mode: "nil-channel"}, POp{K: "D"}, POp{K: "R", Mode: "all"}, POp{K: "D"})
+					return
+				}
 				if rng.IntN(3) == 0 {
 					// replace a channel that was closed and has been seen drained
 					out = append(out, POp{K: "C", P: p}, POp{K: "D"}, POp{K: "R", Mode: "all"}, POp{K: "D"})
@@ -802,6 +812,10 @@ func genPrioScenario(rng *rand.Rand, g prioGen) PrioScenario {
 		}
 		if at[len(sc.Script)] {
 			emit()
+		}
+		if nilUsed && present[nilPrio] {
+			out = append(out, POp{K: "rm", P: nilPrio}, POp{K: "D"})
+			present[nilPrio] = false
 		}
 		if rng.IntN(6) == 0 {
 			// end game: everything registered is closed and drained; a further (open, empty) input
